@@ -9,14 +9,23 @@ from vlib import gen_c07 as G
 PROPERTY = "C07"
 LEVEL = "exploration"
 RULE = ("1-4 homogeneous equilibria built as small integer combinations (multipliers in -2..2) of 1-3 reactions of a "
-        "pool of 17 real acid/base/complexation equilibria over 29 formula-defined species (+ 0-2 spectator ions, "
+        "pool of 17 real acid/base/complexation equilibria over 29 formula-defined species and 6 equilibria over 10 "
+        "species with non-integer formula counts (CH2.5O, C0.25H0.5, N0.75H2.25, S0.125O0.375, ...: dyadic decimals, "
+        "exact as Fractions in the oracle, float64 in chempy; some share H+, NH3, Cu+2 with the integer pool) "
+        "(+ 0-2 spectator ions, "
         "species order permuted), hence possibly linearly dependent; positive rational equilibrium state "
         "c_eq = m*10^-d (m 1..99, d 0..6), K_i := Q_i(c_eq) exactly, initial state = c_eq moved along every reaction "
         "by a rational fraction of the largest admissible extent (so totals agree by construction; fractions +-1 put a "
         "zero into the initial state).  Every case is evaluated in the 12 configurations {Lin, Log, Square} x "
         "rref_equil x rref_preserv with backend=sympy (+ Lin with new_eq_params=False) at the true state and at four "
         "violating states (one K scaled, one initial amount shifted, one concentration scaled, state moved along one "
-        "reaction; with rref_equil=True only 2 resp. 1 of the four, see _RREF_EQUIL_STATES).  Non-trivial = at least "
+        "reaction; with rref_equil=True only 2 resp. 1 of the four, see _RREF_EQUIL_STATES).  Systems with a "
+        "non-integer formula count are in addition evaluated the way the solvers do it - f(symbols), then exact "
+        "substitution - for rref_preserv=True.  EqSystem.equilibrium_quotients / Equilibrium.Q are called with exact "
+        "Fractions (one state), a Python list and a 1-D array of floats, and a 2-D array of 2-4 positive states "
+        "(rows = states: c_eq, one concentration scaled, moved along a reaction, values reversed over the species); "
+        "dicts are not accepted by these functions (TypeError on the unchanged tree) and are not part of the domain.  "
+        "Non-trivial = at least "
         "two equilibria sharing a species and a charged species takes part; distinct by case digest.")
 ASSUMPTIONS = ["vlib/gen_c07.py COMP table (hand-checked compositions of 29+ species) and the balanced pool reactions "
                "(asserted balanced against that table at import)",
@@ -27,6 +36,17 @@ ASSUMPTIONS = ["vlib/gen_c07.py COMP table (hand-checked compositions of 29+ spe
 
 ZERO_TOL = 1e-30      # |residual| <= ZERO_TOL*scale at 50 digits counts as zero (identity; rounding is ~1e-48*scale)
 NONZERO_TOL = 1e-20   # a violated state must give |residual| > NONZERO_TOL somewhere (perturbations are >= 1e-6 relative)
+# Species with a non-integer formula count carry float64 composition entries inside chempy, so the conservation
+# residuals sum_s B_ks (c_s - init_s) of such a system are formed in 53-bit arithmetic (sympy Float): a residual that
+# contains a Float is zero if <= FLOAT_TOL*fscale, fscale = 1 + sum_k sum_s |B_ks| (|c_s| + |init_s|) (sum of the
+# absolute terms).  <= 2 ns products and additions per row: <= ~30 ulp = 3e-15 relative to the absolute terms, times
+# the row-reduction coefficients (ratios of formula counts, <= ~100); measured over 470 systems: <= 1.4e-16*fscale
+# with and without row reduction.  The same threshold decides "non-zero" for such residuals (noise must not count as
+# a detected violation); a violation whose exact effect on the totals is below FLOAT_RESOLVE*fscale is not judged.
+FLOAT_TOL = 1e-12
+FLOAT_RESOLVE = 1e-9
+QUOT_TOL = 1e-12      # |ln Q_float - ln Q_exact| <= QUOT_TOL*(1 + sum|nu ln c|): float(c) 2**-53 each, pow <= 1 ulp per
+#                       unit of |nu| (<= 16), <= 14 factors: <= ~3e-14 in total
 
 NUMSYS = ["Lin", "Log", "Square"]
 # sympy's symbolic rref of (stoichiometry | ln K) inside chempy dominates the cost (25-50 ms per call), so with
@@ -56,7 +76,9 @@ def _yvec(kind, conc, species):
 
 
 def _values(fl):
-    """Residual expressions -> list of (exact?, value): Fraction when sympy returned a Rational, else 50-digit number."""
+    """Residual expressions -> list of (kind, value): kind True = sympy returned a Rational (value: Fraction), False =
+    symbolic number evaluated to 50 digits, "float" = the expression contains a 53-bit Float (non-integer formula
+    count inside chempy), evaluated as is."""
     import sympy as sp
     out = []
     for e in fl:
@@ -64,34 +86,127 @@ def _values(fl):
         if e.is_Rational:
             out.append((True, F(int(e.p), int(e.q))))
         else:
+            kind = "float" if e.atoms(sp.Float) else False
             v = sp.N(e, 50)
             if not v.is_number or v.is_real is False or v.has(sp.nan, sp.zoo, sp.oo):
-                out.append((False, None))
+                out.append((kind, None))
             else:
-                out.append((False, abs(float(v))))
+                out.append((kind, abs(float(v))))
     return out
 
 
-def _all_zero(vals, scale):
+def _all_zero(vals, scale, fscale=None):
+    """fscale: None for systems over integer formulas (a Float in a residual is then held to ZERO_TOL like any other
+    inexact value), else the sum of absolute terms of the conservation rows (see FLOAT_TOL)."""
     for exact, v in vals:
         if v is None:
             return False
-        if exact and v != 0:
-            return False
-        if not exact and not v <= ZERO_TOL * scale:
+        if exact is True:
+            if v != 0:
+                return False
+        elif exact == "float" and fscale is not None:
+            if not v <= FLOAT_TOL * fscale:
+                return False
+        elif not v <= ZERO_TOL * scale:
             return False
     return True
 
 
-def _some_nonzero(vals):
+def _some_nonzero(vals, fscale=None):
     for exact, v in vals:
         if v is None:
             return True         # not even a number: certainly not "all residuals vanish"
-        if exact and v != 0:
-            return True
-        if not exact and v > NONZERO_TOL:
+        if exact is True:
+            if v != 0:
+                return True
+        elif exact == "float" and fscale is not None:
+            if v > FLOAT_TOL * fscale:
+                return True
+        elif v > NONZERO_TOL:
             return True
     return False
+
+
+def _fscale(M, conc, init):
+    return 1.0 + sum(float(abs(G.COMP[s].get(k, 0)) * (abs(conc[s]) + abs(init[s]))) for k in M.keys for s in M.species)
+
+
+def _lnq(conc, net):
+    """(ln Q, sum |nu ln c|, largest |partial sum|) of the exact quotient, from the Fractions."""
+    import math
+    tot, mag, peak = 0.0, 0.0, 0.0
+    for s, n in net:
+        c = conc[s]
+        term = n * (math.log(c.numerator) - math.log(c.denominator))
+        tot += term
+        mag += abs(term)
+        peak = max(peak, abs(tot), abs(term))
+    return tot, mag, peak
+
+
+def _check_float_quotients(M, es, ctx, states):
+    """EqSystem.equilibrium_quotients / Equilibrium.Q with float input: a list and a 1-D array (one state) and a 2-D
+    array (rows = states); every number against the exact Fraction quotient, in log space."""
+    import math
+    import numpy as np
+    rows = [[float(st[s]) for s in M.species] for st in states]
+    # reference, in the order in which chempy multiplies (substance order; coefficient 0 contributes a factor 1)
+    ref = []
+    for st in states:
+        ref.append([_lnq(st, [(s, net.get(s, 0)) for s in M.species]) for net in M.nets])
+    if any(peak > 650 for r in ref for _, _, peak in r):
+        ctx.label("quotients_float:outside_float64_range")     # a partial product would over/underflow: not judged
+        return
+    ctx.label("quotients_float:%d_states" % len(states))
+
+    def judge(got, lnq, mag, clause, **detail):
+        try:
+            g = float(got)
+        except (TypeError, ValueError):
+            g = float("nan")
+        if not (g > 0 and math.isfinite(g)) or abs(math.log(g) - lnq) > QUOT_TOL * (1.0 + mag):
+            ctx.fail(clause, got=repr(got), expected_ln=lnq, **detail)
+            return False
+        return True
+
+    def one_state(call, clause, arg):
+        qs = sut(call, arg)
+        if is_err(qs):
+            ctx.fail(clause + "_raised", error=repr(qs))
+            return
+        if len(qs) != M.nr:
+            ctx.fail(clause + "_length", got=len(qs), expected=M.nr)
+            return
+        for i, q in enumerate(qs):
+            if np.ndim(q) != 0:
+                ctx.fail(clause + "_shape", rxn=i, got=list(np.shape(q)), expected=[])
+                return
+            if not judge(q, ref[0][i][0], ref[0][i][1], clause, rxn=i):
+                return
+
+    def batch(call, clause, arg):
+        qs = sut(call, arg)
+        if is_err(qs):
+            ctx.fail(clause + "_raised", error=repr(qs))
+            return
+        if len(qs) != M.nr:
+            ctx.fail(clause + "_length", got=len(qs), expected=M.nr)
+            return
+        for i, q in enumerate(qs):
+            q = np.asarray(q)
+            if q.shape != (len(states),):
+                ctx.fail(clause + "_shape", rxn=i, got=list(q.shape), expected=[len(states)], n_species=M.ns)
+                return
+            for j in range(len(states)):
+                if not judge(q[j], ref[j][i][0], ref[j][i][1], clause, rxn=i, state=j):
+                    return
+
+    one_state(es.equilibrium_quotients, "equilibrium_quotients_float:list", list(rows[0]))
+    one_state(es.equilibrium_quotients, "equilibrium_quotients_float:1d", np.array(rows[0], dtype=float))
+    batch(es.equilibrium_quotients, "equilibrium_quotients_float:2d", np.array(rows, dtype=float))
+    # the per-equilibrium method (same helper, stoichiometry taken from the Equilibrium object)
+    one_state(lambda a: [rx.Q(es.substances, a) for rx in es.rxns], "Equilibrium.Q:1d", np.array(rows[0], dtype=float))
+    batch(lambda a: [rx.Q(es.substances, a) for rx in es.rxns], "Equilibrium.Q:2d", np.array(rows, dtype=float))
 
 
 def check_resid(case, ctx):
@@ -109,6 +224,11 @@ def check_resid(case, ctx):
         ctx.label("rank_deficient_B")
     if any(s in G.SPECTATORS or not any(s in n for n in M.nets) for s in M.species):
         ctx.label("isolated_species")
+    frac = bool(M.fractional())
+    if frac:
+        ctx.label("fractional_composition", "fractional_species=%d" % min(len(M.fractional()), 4))
+        if any(s in n for n in M.nets for s in M.fractional()):
+            ctx.label("fractional_species_reacts")
     ctx.nontrivial(M.nr >= 2 and M.coupled() and M.charged())
 
     es, subs = G.build_eqsys(M.species, M.rxns, [_R(k) for k in M.K])
@@ -170,6 +290,24 @@ def check_resid(case, ctx):
         ("conc_scaled", c_fac, M.init, M.K),
         ("moved_along_reaction", c_dir, M.init, M.K),
     ]
+    # --- quotients of float states: one state (list, 1-D array) and a batch (2-D array, rows = states) ------------------
+    c_rev = {s: M.ceq[t] for s, t in zip(M.species, reversed(M.species))}
+    _check_float_quotients(M, es, ctx, [M.ceq, c_fac, c_dir, c_rev][:int(P.get("n_states", 3))])
+
+    def unresolved(what):
+        """Non-integer formula counts only: is the violation invisible to the exact rows and its exact effect on the
+        float-evaluated totals too small to be told from rounding (see FLOAT_RESOLVE)?"""
+        if not frac:
+            return False
+        if what == "init_total_shifted":
+            sp_, delta, conc, init = sp_i, init_bad[sp_i] - M.init[sp_i], M.ceq, init_bad
+        elif what == "conc_scaled" and not any(sp_s in n for n in M.nets):
+            sp_, delta, conc, init = sp_s, c_fac[sp_s] - M.ceq[sp_s], c_fac, M.init
+        else:
+            return False
+        effect = max(float(abs(G.COMP[sp_].get(k, 0) * delta)) for k in M.keys)
+        return effect < FLOAT_RESOLVE * _fscale(M, conc, init)
+
     classes = _classes()
     for kind in NUMSYS:
         for rref_equil in (False, True):
@@ -183,30 +321,78 @@ def check_resid(case, ctx):
                     params = [_R(init[s]) for s in M.species] + [_R(k) for k in Ks]
                     fl = ns.f(_yvec(kind, conc, M.species), params)
                     vals = _values(fl)
-                    if kind != "Log" and what == "true_state" and any(not ex for ex, _ in vals):
+                    fscale = _fscale(M, conc, init) if frac else None
+                    if kind != "Log" and what == "true_state" and any(ex is False for ex, _ in vals):
                         ctx.label("irrational_residual(rref,50 digits)")
                     if what == "true_state":
+                        sig = {"route": "numeric"}
+                        if frac:
+                            # signature of known finding C07-F1 (see known_findings.d/C07.json): the conservation block is
+                            # row-reduced together with its float-evaluated right-hand side; rounding noise in a
+                            # dependent row becomes a pivot: one equation too many, and it reads 0 = 1
+                            sig.update(fractional_composition=True,
+                                       dependent_conservation_rows=len(M.keys) > M.rank_B,
+                                       inconsistent_row=len(fl) == n_exp + 1 and any(
+                                           ex is not False and v is not None and abs(v) == 1 for ex, v in vals[-(len(M.keys) + 1):]))
                         if len(fl) != n_exp:
-                            ctx.fail("number_of_equations:" + kind, got=len(fl), expected=n_exp, **cfg)
-                        if not _all_zero(vals, scale):
-                            ctx.fail("nonzero_at_equilibrium:" + kind, residuals=short([str(x) for x in fl], 500), **cfg)
-                    elif not _some_nonzero(vals):
+                            ctx.fail("number_of_equations:" + kind, got=len(fl), expected=n_exp, **cfg, **sig)
+                        if not _all_zero(vals, scale, fscale):
+                            ctx.fail("nonzero_at_equilibrium:" + kind, residuals=short([str(x) for x in fl], 500),
+                                     **cfg, **sig)
+                    elif not _some_nonzero(vals, fscale):
+                        if unresolved(what):
+                            ctx.label("float_unresolved:" + what)
+                        else:
+                            ctx.fail("zero_at_violating_state:%s:%s" % (what, kind), route="numeric", **cfg)
+    if frac:
+        # the way the solvers use these classes: f(symbols) once, numbers substituted afterwards (exactly, here)
+        import sympy as sp
+        ysym = list(sp.symbols("y:%d" % M.ns, real=True))
+        psym = list(sp.symbols("p:%d" % (M.ns + M.nr), positive=True))
+        n_exp = M.n_equations(False, True)
+        for kind in NUMSYS:
+            cfg = {"numsys": kind, "rref_equil": False, "rref_preserv": True, "route": "symbolic"}
+            ns = classes[kind](es, backend="sympy", rref_equil=False, rref_preserv=True)
+            fs = [sp.sympify(e) for e in ns.f(ysym, psym)]
+            if len(fs) != n_exp:
+                ctx.fail("number_of_equations:" + kind, got=len(fs), expected=n_exp, **cfg)
+            for what, conc, init, Ks in (states[0], states[2]):
+                sub = dict(zip(ysym, _yvec(kind, conc, M.species)))
+                sub.update(zip(psym, [_R(init[s]) for s in M.species] + [_R(k) for k in Ks]))
+                vals = _values([e.subs(sub) for e in fs])
+                fscale = _fscale(M, conc, init)
+                if what == "true_state":
+                    if not _all_zero(vals, scale, fscale):
+                        ctx.fail("nonzero_at_equilibrium:" + kind, residuals=short([str(e.subs(sub)) for e in fs], 500),
+                                 **cfg)
+                elif not _some_nonzero(vals, fscale):
+                    if unresolved(what):
+                        ctx.label("float_unresolved:" + what)
+                    else:
                         ctx.fail("zero_at_violating_state:%s:%s" % (what, kind), **cfg)
     # K taken from the reactions themselves (new_eq_params=False): params = initial concentrations only
     ns = classes["Lin"](es, backend="sympy", new_eq_params=False)
     fl = ns.f(_yvec("Lin", M.ceq, M.species), [_R(M.init[s]) for s in M.species])
-    if len(fl) != M.n_equations(False, False) or not _all_zero(_values(fl), scale):
+    fs0 = _fscale(M, M.ceq, M.init) if frac else None
+    if len(fl) != M.n_equations(False, False) or not _all_zero(_values(fl), scale, fs0):
         ctx.fail("nonzero_at_equilibrium:Lin:own_constants", residuals=short([str(x) for x in fl], 500))
     fl = ns.f(_yvec("Lin", c_dir, M.species), [_R(M.init[s]) for s in M.species])
-    if not _some_nonzero(_values(fl)):
+    if not _some_nonzero(_values(fl), _fscale(M, c_dir, M.init) if frac else None):
         ctx.fail("zero_at_violating_state:moved_along_reaction:Lin:own_constants")
 
 
 SUBCHECKS = [
     SubCheck("residuals", check_resid, strategy=G.c07_cases(), quick=300, thorough=15000,
-             rule="G.c07_cases: 1-3 pool reactions, 1-4 integer combinations, 0-2 spectators, 12 configurations x 5 states",
+             rule="G.c07_cases: 1-3 pool reactions (23, six of them over non-integer formulas), 1-4 integer "
+                  "combinations, 0-2 spectators, 12 configurations x 5 states (+ 3 symbolic-route configurations x 2 "
+                  "states for non-integer formulas); quotients of 1-D / 2-D float input",
              tolerances={"zero (non-rational residual, 50 digits)": "1e-30*(1+sum|nu ln c|+sum|ln K|)",
                          "non-zero (non-rational residual)": "> 1e-20",
                          "rational residuals": "exact",
+                         "residual containing a 53-bit Float (non-integer formula counts only)":
+                             "zero: <= 1e-12*(1+sum|B_ks|(|c_s|+|init_s|)), non-zero: above that; violations whose "
+                             "exact effect on the totals is < 1e-9 of that sum are not judged",
+                         "float quotients": "|ln Q - ln Q_exact| <= 1e-12*(1+sum|nu ln c|); cases with a partial "
+                                            "product outside 1e+-282 not judged",
                          "composition_conservation (float64)": "1e-12*sum|terms|"}),
 ]
